@@ -466,3 +466,37 @@ theorem parse_insert_child (cfg : Cfg) (ls : List Str) (i : Nat) (txt : Str)
     rfl
 
 end Ccp.Tree
+
+namespace Ccp.Edit
+open Ccp.Py Ccp.Tree
+
+theorem tdiv_eq_one_pos (a b : Int) (hb : 0 ≤ b) (h : Int.tdiv a b = 1) : 0 < a := by
+  apply Classical.byContradiction
+  intro hn
+  have ha : a ≤ 0 := by omega
+  have h1 : Int.tdiv (-a) b ≥ 0 := Int.tdiv_nonneg (by omega) hb
+  rw [Int.neg_tdiv] at h1
+  omega
+
+/-- a payload classified one level below the target is indented deeper than it -/
+theorem cfi_one_lt (w si : Nat) (txt : Str) (h : cfi w si txt = some 1) : si < indent txt := by
+  unfold cfi at h
+  dsimp only at h
+  split at h
+  · cases h
+  · split at h
+    · cases h
+    · split at h
+      · cases h
+      · injection h with h
+        have := tdiv_eq_one_pos _ _ (by omega) h
+        omega
+
+/-- with auto-commit on, the tree after a text change is the parse of the changed texts -/
+theorem auto_tree_after (s : S) (ha : s.auto = true) (its : List Item) (st : Bool) :
+    (autoCommit { s with items := its, stale := st, dirty := true }).tree
+      = parse s.cfg (its.map Item.text) := by
+  simp only [autoCommit, ha, if_true, commit]
+  rw [parse_eq_bootstrap]; rfl
+
+end Ccp.Edit
